@@ -619,6 +619,9 @@ int read_msf(struct in_buffer* b,struct msa** m)
                         active_seq = 0;
                 }else{
                         if(!isspace(line[0])){
+                                if(active_seq >= msa->numseq){
+                                        ERROR_MSG("MSF block with more sequence rows than Name: entries in the header.");
+                                }
                                 seq_ptr = msa->sequences[active_seq];
                                 //p = strstr(line,seq_ptr->name);
                                 //if(p){
